@@ -109,7 +109,7 @@ func (f *frame) loopInvariants(b *ssa.BasicBlock, li *loopInfo, phis []*ssa.Phi)
 					pos := loopPos(li)
 					cl.loopVars = rangeLoopVars(li)
 					if err := f.vc.P.prepare(cl, f.fn, pos); err != nil {
-						unsup("loop invariant (checked at %s): %v", f.vc.P.fset.Position(pos), err)
+						unsup("stale contract: loop invariant (checked at %s): %v", f.vc.P.fset.Position(pos), err)
 					}
 					out = append(out, &invariant{name: cl.Name, cl: cl, pos: pos})
 				}
@@ -128,7 +128,7 @@ func (f *frame) loopInvariants(b *ssa.BasicBlock, li *loopInfo, phis []*ssa.Phi)
 						pos := loopPos(li)
 						cl.loopVars = rangeLoopVars(li)
 						if err := f.vc.P.prepare(cl, f.fn, pos); err != nil {
-							unsup("loop invariant: %v", err)
+							unsup("stale contract: loop invariant: %v", err)
 						}
 						out = append(out, &invariant{name: cl.Name, cl: cl, pos: pos})
 					}
@@ -197,7 +197,7 @@ func (f *frame) checkPost(ret *ssa.Return, results []Term) {
 	}
 	for _, cl := range ct.Ensures {
 		if err := f.vc.P.prepare(cl, f.fn, contractPos(f.fn)); err != nil {
-			unsup("%v", err)
+			unsup("stale contract: %v", err)
 		}
 		env := f.env(cl, results)
 		g := env.eval(cl.expr)
@@ -213,7 +213,7 @@ func (f *frame) assumePre() {
 	}
 	for _, cl := range ct.Requires {
 		if err := f.vc.P.prepare(cl, f.fn, contractPos(f.fn)); err != nil {
-			unsup("%v", err)
+			unsup("stale contract: %v", err)
 		}
 		env := f.env(cl, nil)
 		env.old = f.st
@@ -237,7 +237,7 @@ func (f *frame) checkPre(callee *ssa.Function, ct *Contract, args []Term, pos to
 	g.st = pre
 	for _, cl := range ct.Requires {
 		if err := vc.P.prepare(cl, callee, contractPos(callee)); err != nil {
-			unsup("%v", err)
+			unsup("stale contract: %v", err)
 		}
 		if cl.usesGhost {
 			unsup("precondition %q of %s mentions call events", cl.Name, callee.Name())
@@ -340,7 +340,7 @@ func (f *frame) contractCall(callee *ssa.Function, ct *Contract, c *ssa.CallComm
 	g.oldSt = pre
 	for _, cl := range ct.Ensures {
 		if err := vc.P.prepare(cl, callee, contractPos(callee)); err != nil {
-			unsup("%v", err)
+			unsup("stale contract: %v", err)
 		}
 		env := g.env(cl, rs)
 		env.now, env.old = delta, pre
